@@ -176,7 +176,7 @@ def render_case(n, case):
         inv_lines = []
         if case.get("invs") and j == nlev - 1:
             inv_helpers = []
-            for c in case["invs"]:
+            for c in case["invs"] + case.get("invs_set", []):
                 arg = render_contract(c, "inv", inv_helpers, ind1)
                 extra = ""
                 if c.get("check_on"):
